@@ -304,11 +304,68 @@ def run_multi_files(ctx):
     return n
 
 
+def run_default_rule(ctx):
+    """rules files with FILE-LEVEL clauses: they form the file's default rule, named `<file name as given>/default` - the path in
+    the -r/-t layout, the file's prefix in the --dir layout.  The expectation written for that name is looked up by every
+    rendering: the plain, JSON, YAML and JUnit runs classify the default rule alike and exit alike."""
+    jobs, meta = [], []
+    k = 0
+    for stem in ('vol', 'r', 'Zeta'):
+        for exp_default in ('PASS', 'FAIL', None):
+            d = os.path.join(ctx.wd, 'df%d' % k); k += 1
+            rules = 'x == 1\nrule t {\n  x exists\n}\n'
+            for layout, dname in (('dir', '%s/default' % stem), ('single', 'pol/%s.guard/default' % stem)):
+                exps = {'t': 'PASS'}
+                if exp_default:
+                    exps[dname] = exp_default
+                spec = [{'name': 'c0', 'input': {'x': 1}, 'expectations': {'rules': exps}}]
+                dd = os.path.join(d, layout)
+                e2e.write_files(dd, {'pol/%s.guard' % stem: rules, 'pol/tests/%s_tests.yaml' % stem: json.dumps(spec)})
+                for fmt in ('plain', 'json', 'yaml', 'junit'):
+                    o = [] if fmt == 'plain' else ['-o', fmt]
+                    args = ['test', '-a', '-d', 'pol'] if layout == 'dir' else ['test', '-a', '-r', 'pol/%s.guard' % stem, '-t', 'pol/tests/%s_tests.yaml' % stem]
+                    jobs.append({'args': args + o, 'cwd': dd}); meta.append((stem, exp_default, layout, dname, fmt))
+    n = 0
+    for (stem, exp_default, layout, dname, fmt), (code, so, se) in zip(meta, e2e.run_many(jobs)):
+        n += 1
+        text = so.decode('utf-8', 'replace')
+        want = 7 if exp_default == 'FAIL' else 0     # the default rule PASSes on {x: 1}
+        info = {'class': 'test-default-rule', 'stem': stem, 'expected_for_default': exp_default, 'layout': layout, 'format': fmt,
+                'default_rule_name': dname, 'stdout': text[:700], 'stderr': se[-300:].decode('utf-8', 'replace')}
+        if code != want:
+            ctx.failing('test (%s, %s): the file-level clauses form rule %s which PASSes; with expectation %s the run exits %s, expected %d'
+                        % (layout, fmt, dname, exp_default, code, want), info, found=True)
+            continue
+        cls = None
+        if fmt == 'json':
+            try:
+                j = json.loads(text)
+                tc = (j[0] if isinstance(j, list) else j)['test_cases'][0]
+                cls = ('passed' if any(p['name'] == dname for p in tc['passed_rules']) else
+                       'failed' if any(f['name'] == dname for f in tc['failed_rules']) else
+                       'skipped' if any(s['name'] == dname for s in tc['skipped_rules']) else 'absent')
+            except Exception as e:
+                ctx.failing('test (%s, json) output unreadable: %s' % (layout, e), info, found=True)
+                continue
+        elif fmt == 'plain':
+            pc = parse_plain(text)
+            if pc:
+                cls = ('passed' if any(x[0] == dname for x in pc[0]['passed']) else 'failed' if any(x[0] == dname for x in pc[0]['failed']) else
+                       'skipped' if dname in pc[0]['noexp'] else 'absent')
+        if cls is not None:
+            wantc = {'PASS': 'passed', 'FAIL': 'failed', None: 'skipped'}[exp_default]
+            if cls != wantc:
+                ctx.failing('test (%s, %s): the default rule %s is reported as %s, expected %s' % (layout, fmt, dname, cls, wantc), info, found=True)
+    ctx.coverage['default_rule_runs'] = n
+    ctx.coverage['evaluations'] += n
+    return n
+
+
 def run(ctx):
     ctx.build(cli=True)
     pr = ctx.proofs('C16')
     thorough = ctx.tier == 'thorough'
-    n1 = exhaustive_gsr(ctx, 6 if thorough else 4) + run_multi_files(ctx)
+    n1 = exhaustive_gsr(ctx, 6 if thorough else 4) + run_multi_files(ctx) + run_default_rule(ctx)
     n2 = run_e2e(ctx, 300 if thorough else 60)
     ctx.coverage['distinct_nontrivial'] = n1 + n2
     ctx.coverage['rule'] = ('get_status_result: every expected status x every status list up to length %d (all distinct); end-to-end: generated rules files '
